@@ -14,7 +14,8 @@ Definition parse_ref (ctx : list string) (od : option dtype) : outcome ty :=
       if contains "typing." (dt_text d) then Raise PDocstringC
       else match eval ctx (dt_expr d) with
            | Ok t => Ok t
-           | Raise x => if derives x NameErrorC then Raise PDocstringC else Raise x
+           | Raise x => if derives x NameErrorC then Raise PDocstringC
+                        else if derives x ExceptionC then Raise PDocstringC else Raise x
            end
   end.
 
@@ -65,13 +66,13 @@ Qed.
 
 Lemma parse_ref_ok : forall ctx od,
   parse_type {| pc_none := Some PDocstringC; pc_guard := Some ("typing.", PDocstringC);
-                pc_catch := [(NameErrorC, PDocstringC)] |} ctx od
+                pc_catch := [(NameErrorC, PDocstringC); (ExceptionC, PDocstringC)] |} ctx od
   = parse_ref ctx od.
 Proof.
   intros. destruct od as [d|]; [|reflexivity]. unfold parse_type, parse_ref. cbn [pc_guard pc_catch].
   destruct (contains "typing." (dt_text d)); [reflexivity|].
   destruct (eval ctx (dt_expr d)) as [v|x]; [reflexivity|]. cbn [find fst].
-  destruct (derives x NameErrorC); reflexivity.
+  destruct (derives x NameErrorC); [reflexivity|]. destruct (derives x ExceptionC); reflexivity.
 Qed.
 
 Local Arguments Z.of_nat : simpl never.
